@@ -14,7 +14,7 @@
     Nothing else is assumed about [iso]: in particular the theorems cover the transitivity shortcut of the code
     (an item is compared only with the FIRST member of each class / with one stored template per class). *)
 From Coq Require Import List NArith ZArith Bool Arith Permutation.
-From SK Require Import lib.LGraph lib.C13_Partition model.C13_Model model.C13_Trace model.C13_Opts proof.C13_Proof proof.C13_More proof.C13_Iso proof.C13_Templates proof.C13_Clusters proof.C13_Before proof.C13_Trace proof.C13_TraceExact proof.C13_Raw proof.C13_Opts proof.C13_RawOrder.
+From SK Require Import lib.LGraph lib.C13_Partition model.C13_Model model.C13_Trace model.C13_Opts proof.C13_Proof proof.C13_More proof.C13_Iso proof.C13_Templates proof.C13_Clusters proof.C13_Before proof.C13_Trace proof.C13_TraceExact proof.C13_Raw proof.C13_Opts proof.C13_RawOrder proof.C13_RawBatch.
 Import ListNotations.
 
 (** 1. GraphCluster.fit / iterative_cluster: every item gets exactly one class (the list of classes has the length
@@ -615,3 +615,19 @@ Theorem C13_order_independent_raw :
       (ci = cj <-> ci' = cj') /\ (ci = cj <-> raw_isomorphic c (ri_graph x) (ri_graph y)).
 Proof. exact order_independent_raw. Qed.
 Print Assumptions C13_order_independent_raw.
+
+(** batched classification on the caller's graphs: BatchCluster.fit from no templates over ANY arrival order of the raw items,
+    with any batch size >= 1 and any sampler choices, puts two items into one class IFF their raw graphs are isomorphic *)
+Theorem C13_batch_any_order_raw :
+  forall (c : ccfg) (mode : attr_mode) (data data' : list ritem) (bs : option nat) (picks : list nat),
+  Permutation data data' ->
+  length (cc_defs c) = length (cc_names c) ->
+  (forall x, In x data -> NoDup (node_ids (ri_graph x))) ->
+  (forall x y, In x data -> In y data -> raw_isomorphic c (ri_graph x) (ri_graph y) ->
+               gc_key mode (mk_item c x) = gc_key mode (mk_item c y)) ->
+  match bs with None => True | Some b => 1 <= b end ->
+  let classes' := fst (fit (item_iso true (cc_defs c)) mode (map (mk_item c) data') [] bs picks) in
+  forall i' j' x y, nth_error data' i' = Some x -> nth_error data' j' = Some y ->
+    (nth_error classes' i' = nth_error classes' j' <-> raw_isomorphic c (ri_graph x) (ri_graph y)).
+Proof. exact batch_any_order_raw. Qed.
+Print Assumptions C13_batch_any_order_raw.
